@@ -171,6 +171,722 @@ def generate(repo):
             "end Nstd.Str.Generated\n")
 
 
+# ======================================================================================================================
+# body translator: C++ bodies of String.hpp -> lean/Nstd/Generated/StrBody.lean (tie by translation)
+#
+# Tokenizer + recursive-descent parser of the C++ subset the bodies of
+#     ~String(), detach(usize, usize), String(const String&), operator=(const String&), operator const char*() [const],
+#     operator char*(), detach(), resize, reserve, append x3, prepend x2
+# are written in, and a statement-by-statement emitter over the semantics of lean/Nstd/Str/Mach.lean.  Anything outside
+# the subset is REFUSED (-> broken tie).  lean/Nstd/Str/PropsBody.lean proves every generated function equal to the
+# hand-written model step of Model.lean (release, detach, ctorCopy, assign, cview, mview, resize, reserve, appendS/P/C,
+# prependS/P) on every state with an unused next block id (part of the heap invariant).
+#
+# Conventions of the translation (assumptions, listed in the MANIFEST note):
+#   usize            -> Nat (no wrap-around);  sizeof(char) = 1;  `a | b` -> `a ||| b`
+#   Data*            -> Loc (see Mach.lean);  `&emptyData` -> Loc.empty;  `_data` is refused (no translated body stores into it)
+#   char*            -> Mach.CPtr;  casts between char pointer types are dropped
+#   String object    -> slot index;  `this`, parameters `const String& x`, locals `String x(*this)` (one extra slot parameter
+#                       each, constructed with the translated copy constructor, destroyed with the translated destructor
+#                       at every `return`; afterwards the slot holds no object: Mach.endLife)
+#   `X = (Data*)new char[n]; X->str = (char*)((byte*)X + sizeof(Data));` -> Mach.newData (the only accepted form of `new`)
+#   `if(a && b)` / `||` / `!` -> nested `if`s (short circuit); `c ? a : b` as a value -> lazy, branches without stores
+#   `E1[E2] = E3`, `X->f = E`: right operand first, then the left one left to right (C++17)
+#   `Atomic::decrement(x) == 0`: the decrement, then a load of the counter (one thread)
+#   `NSTD_VERIF_RC_YIELD(...)` (scheduling hook, empty without a scheduler), `#ifdef ASSERT … #endif` -> skipped
+#   return values (`*this`, `data->str`, `(char*)data->str`) are checked for their form and not translated
+#   loops, `goto`, `switch`, other calls, other members, `-`, `/`, `%`, `++`, `--` -> refused
+# ======================================================================================================================
+BODY_OUT = VERIF / "lean" / "Nstd" / "Generated" / "StrBody.lean"
+BTOK = re.compile(r"\s*(->|::|==|!=|<=|>=|&&|\|\||\+\+|--|0[xX][0-9a-fA-F]+|\d+|'(?:\\.|[^'\\])'|\"(?:\\.|[^\"\\])*\""
+                  r"|[A-Za-z_]\w*|[{}()\[\];,<>=+\-*/!?:&.~|^%])")
+IDENT = re.compile(r"[A-Za-z_]\w*$")
+
+
+def strip_comments(src):
+    src = re.sub(r"/\*.*?\*/", " ", src, flags=re.S)
+    return re.sub(r"//[^\n]*", "", src)
+
+
+def btokenize(text, fn):
+    text = re.sub(r"#ifdef\s+ASSERT\s*\n(?:\s*ASSERT\s*\([^\n]*\)\s*;\s*\n)*\s*#endif", " ", text)
+    if "#" in text:
+        raise Untranslatable(f"{fn}: preprocessor directive inside the body")
+    toks, pos = [], 0
+    text = text.rstrip()
+    while pos < len(text):
+        m = BTOK.match(text, pos)
+        if not m:
+            if text[pos:].strip() == "":
+                break
+            raise Untranslatable(f"{fn}: cannot tokenize at {text[pos:pos + 30]!r}")
+        toks.append(m.group(1))
+        pos = m.end()
+    return toks
+
+
+def balanced(src, start):
+    depth = 0
+    for i in range(start, len(src)):
+        if src[i] == "{":
+            depth += 1
+        elif src[i] == "}":
+            depth -= 1
+            if depth == 0:
+                return i + 1
+    raise Untranslatable("unbalanced braces")
+
+
+def extract_body(src, fn, sig_rx):
+    ms = list(re.finditer(sig_rx + r"\s*\{", src))
+    if len(ms) != 1:
+        raise Untranslatable(f"{fn}: {len(ms)} definitions found, expected exactly one")
+    m = ms[0]
+    end = balanced(src, m.end() - 1)
+    return src[m.end():end - 1], m.groups()
+
+
+CAST_TYPES = {"char*": "cptr", "constchar*": "cptr", "byte*": "byteptr", "Data*": "dptr", "usize": "nat", "constbyte*": "byteptr"}
+
+
+class BP:
+    """parser; expressions -> tuples"""
+
+    def __init__(self, toks, fn):
+        self.t, self.i, self.fn = toks, 0, fn
+
+    def peek(self, k=0):
+        return self.t[self.i + k] if self.i + k < len(self.t) else None
+
+    def eat(self, x=None):
+        tok = self.peek()
+        if tok is None or (x is not None and tok != x):
+            raise Untranslatable(f"{self.fn}: expected {x!r}, found {tok!r}")
+        self.i += 1
+        return tok
+
+    def refuse(self, what):
+        raise Untranslatable(f"{self.fn}: {what} is outside the translated subset")
+
+    # ---- statements
+    def stmts(self):
+        out = []
+        while self.peek() is not None and self.peek() != "}":
+            out.append(self.stmt())
+        return out
+
+    def stmt(self):
+        tok = self.peek()
+        if tok == "{":
+            self.eat()
+            b = self.stmts()
+            self.eat("}")
+            return ("block", b)
+        if tok == ";":
+            self.eat()
+            return ("block", [])
+        if tok == "if":
+            self.eat(); self.eat("(")
+            c = self.expr()
+            self.eat(")")
+            a = self.stmt()
+            b = ("block", [])
+            if self.peek() == "else":
+                self.eat()
+                b = self.stmt()
+            return ("if", c, a, b)
+        if tok == "return":
+            self.eat()
+            e = None
+            if self.peek() != ";":
+                e = self.expr()
+            self.eat(";")
+            return ("return", e)
+        if tok == "NSTD_VERIF_RC_YIELD":
+            self.eat(); self.eat("(")
+            depth = 1
+            while depth:
+                x = self.eat()
+                depth += (x == "(") - (x == ")")
+            self.eat(";")
+            return ("block", [])
+        if tok in ("for", "while", "do", "switch", "goto", "break", "continue", "try", "throw"):
+            self.refuse(f"statement `{tok}`")
+        # declarations
+        j = self.i
+        const = False
+        if self.peek() == "const":
+            const = True
+            j += 1
+        ty = self.t[j] if j < len(self.t) else None
+        if ty == "String" and not (j + 1 < len(self.t) and self.t[j + 1] in ("(", "::")):
+            self.i = j + 1
+            if self.peek() == "&":
+                self.eat()
+                name = self.eat()
+                self.eat("=")
+                e = self.expr()
+                self.eat(";")
+                return ("declref", name, e)
+            name = self.eat()
+            if not IDENT.match(name) or const:
+                self.refuse("this declaration of a String")
+            self.eat("(")
+            e = self.expr()
+            self.eat(")"); self.eat(";")
+            return ("declobj", name, e)
+        if ty in ("usize", "char", "Data") and j + 1 < len(self.t) and (self.t[j + 1] == "*" or IDENT.match(self.t[j + 1])):
+            self.i = j + 1
+            ptr = False
+            if self.peek() == "*":
+                self.eat(); ptr = True
+            if self.peek() == "const":
+                self.eat()
+            name = self.eat()
+            if not IDENT.match(name) or self.peek() != "=":
+                self.refuse(f"declarator of `{name}`")
+            self.eat("=")
+            e = self.expr()
+            if self.peek() == ",":
+                self.refuse("several declarators in one declaration")
+            self.eat(";")
+            cty = {("usize", False): "nat", ("char", True): "cptr", ("Data", True): "dptr", ("char", False): "nat"}[(ty, ptr)]
+            return ("decl", cty, name, e)
+        e = self.expr()
+        self.eat(";")
+        return ("expr", e)
+
+    # ---- expressions (precedence climbing)
+    def expr(self):
+        lhs = self.ternary()
+        if self.peek() == "=":
+            self.eat()
+            return ("assign", lhs, self.expr())
+        if self.peek() in ("+", "-", "*", "/", "|", "&", "^", "%", "<", ">") and self.peek(1) == "=":
+            self.refuse("compound assignment")
+        return lhs
+
+    def ternary(self):
+        c = self.binary(0)
+        if self.peek() == "?":
+            self.eat()
+            a = self.expr()
+            self.eat(":")
+            b = self.ternary()
+            return ("tern", c, a, b)
+        return c
+
+    LEVELS = [["||"], ["&&"], ["|"], ["==", "!="], ["<", "<=", ">", ">="], ["+", "-"], ["*", "/", "%"]]
+
+    def binary(self, lvl):
+        if lvl == len(self.LEVELS):
+            return self.unary()
+        a = self.binary(lvl + 1)
+        while self.peek() in self.LEVELS[lvl] and not (self.peek() in ("|", "+", "-", "*", "/", "%", "<", ">") and self.peek(1) == "="):
+            op = self.eat()
+            if op in ("-", "/", "%", "^"):
+                self.refuse(f"operator `{op}`")
+            b = self.binary(lvl + 1)
+            a = ("bin", op, a, b)
+        return a
+
+    def cast_type(self):
+        """the cast `( type )` at the cursor or None"""
+        if self.peek() != "(":
+            return None
+        j = self.i + 1
+        txt = ""
+        while j < len(self.t) and self.t[j] in ("const", "char", "byte", "Data", "usize", "*"):
+            txt += self.t[j]
+            j += 1
+        if txt in CAST_TYPES and j < len(self.t) and self.t[j] == ")":
+            self.i = j + 1
+            return txt
+        return None
+
+    def unary(self):
+        tok = self.peek()
+        ct = self.cast_type()
+        if ct is not None:
+            return ("cast", ct, self.unary())
+        if tok == "!":
+            self.eat()
+            return ("not", self.unary())
+        if tok == "&":
+            self.eat()
+            return ("addr", self.unary())
+        if tok == "*":
+            self.eat()
+            return ("deref", self.unary())
+        if tok in ("++", "--", "-", "~", "+"):
+            self.refuse(f"operator `{tok}`")
+        if tok == "sizeof":
+            self.eat(); self.eat("(")
+            ty = self.eat()
+            self.eat(")")
+            if ty not in ("char", "Data"):
+                self.refuse(f"sizeof({ty})")
+            return ("sizeof", ty)
+        if tok == "new":
+            self.eat(); self.eat("char"); self.eat("[")
+            e = self.expr()
+            self.eat("]")
+            return ("new", e)
+        if tok == "delete":
+            self.eat(); self.eat("["); self.eat("]")
+            return ("delete", self.unary())
+        return self.postfix()
+
+    def args(self):
+        self.eat("(")
+        out = []
+        if self.peek() != ")":
+            out.append(self.expr())
+            while self.peek() == ",":
+                self.eat()
+                out.append(self.expr())
+        self.eat(")")
+        return out
+
+    def postfix(self):
+        tok = self.eat()
+        if tok == "(":
+            a = self.expr()
+            self.eat(")")
+        elif re.fullmatch(r"0[xX][0-9a-fA-F]+|\d+", tok):
+            a = ("num", int(tok, 0))
+        elif tok.startswith("'"):
+            bs = c_string_bytes(tok[1:-1])
+            if len(bs) != 1:
+                self.refuse(f"char literal {tok}")
+            a = ("num", bs[0])
+        elif tok == "this":
+            a = ("this",)
+        elif tok == "const_cast":
+            if [self.eat(), self.eat(), self.eat(), self.eat()] != ["<", "String", "*", ">"]:
+                self.refuse("this const_cast")
+            self.eat("(")
+            a = self.expr()
+            self.eat(")")
+            if a != ("this",):
+                self.refuse("const_cast of something else than `this`")
+        elif IDENT.match(tok):
+            name = tok
+            while self.peek() == "::":
+                self.eat()
+                name += "::" + self.eat()
+            if self.peek() == "(":
+                a = ("call", name, self.args())
+            else:
+                if "::" in name:
+                    self.refuse(f"`{name}`")
+                a = ("id", name)
+        else:
+            self.refuse(f"token {tok!r}")
+        while self.peek() in ("->", ".", "[", "++", "--"):
+            op = self.eat()
+            if op in ("++", "--"):
+                self.refuse(f"operator `{op}`")
+            if op == "[":
+                i = self.expr()
+                self.eat("]")
+                a = ("index", a, i)
+                continue
+            f = self.eat()
+            if not IDENT.match(f):
+                self.refuse(f"member {f!r}")
+            if self.peek() == "(":
+                a = ("mcall", a, op, f, self.args())
+            else:
+                a = ("arrow" if op == "->" else "dot", a, f)
+        return a
+
+
+class BT:
+    """emitter: one C++ body -> the lines of a Lean `do` block over Mach"""
+
+    def __init__(self, fn, params, known):
+        self.fn, self.known = fn, known        # known: lean names of the translated functions defined so far
+        self.n = 0
+        self.tmps = 0                          # extra slots for local String objects
+        self.params = params                   # source name -> (lean term, type)
+
+    def refuse(self, what):
+        raise Untranslatable(f"{self.fn}: {what} is outside the translated subset")
+
+    def fresh(self):
+        self.n += 1
+        return f"t{self.n}"
+
+    # ---- values.  ev appends lines to `out` and returns (lean term, type)
+    def ev(self, e, env, out, ind):
+        k = e[0]
+        if k == "num":
+            return str(e[1]), "nat"
+        if k == "sizeof":
+            return ("1" if e[1] == "char" else "sizeofData"), "nat"
+        if k == "this":
+            return "this", "objptr"
+        if k == "id":
+            x = e[1]
+            if x in env:
+                return env[x]
+            if x == "data":
+                t = self.fresh()
+                out.append(f"{ind}let {t} := s.vars this")
+                return t, "dptr"
+            self.refuse(f"identifier `{x}`")
+        if k == "deref":
+            t, ty = self.ev(e[1], env, out, ind)
+            if ty != "objptr":
+                self.refuse("`*` on something that is not `this`")
+            return t, "obj"
+        if k == "addr":
+            if e[1] == ("id", "emptyData"):
+                return "Loc.empty", "dptr"
+            t, ty = self.ev(e[1], env, out, ind)
+            if ty != "obj":
+                self.refuse("address-of other than `&emptyData` / `&<String>`")
+            return t, "objptr"
+        if k == "cast":
+            t, ty = self.ev(e[2], env, out, ind)
+            want = CAST_TYPES[e[1]]
+            if (ty, want) in (("cptr", "cptr"), ("nat", "nat"), ("dptr", "dptr")):
+                return t, ty
+            if ty == "dptr" and want == "cptr":
+                return t, "dptr_as_chars"              # only `delete[]` accepts this
+            self.refuse(f"cast of a {ty} to ({e[1]})")
+        if k == "dot":
+            t, ty = self.ev(e[1], env, out, ind)
+            if ty != "obj" or e[2] != "data":
+                self.refuse(f"`.{e[2]}`")
+            r = self.fresh()
+            out.append(f"{ind}let {r} := s.vars {t}")
+            return r, "dptr"
+        if k == "arrow":
+            t, ty = self.ev(e[1], env, out, ind)
+            if ty == "objptr" and e[2] == "data":
+                r = self.fresh()
+                out.append(f"{ind}let {r} := s.vars {t}")
+                return r, "dptr"
+            if ty != "dptr":
+                self.refuse(f"`->{e[2]}` on a {ty}")
+            rd = {"ref": ("dRef", "nat"), "len": ("dLen", "nat"), "capacity": ("dCap", "nat"), "str": ("dStr", "cptr")}.get(e[2])
+            if rd is None:
+                self.refuse(f"field `{e[2]}`")
+            r = self.fresh()
+            out.append(f"{ind}let {r} ← {rd[0]} s {t}")
+            return r, rd[1]
+        if k == "index":
+            p, pty = self.ev(e[1], env, out, ind)
+            i, ity = self.ev(e[2], env, out, ind)
+            if pty != "cptr" or ity != "nat":
+                self.refuse("this subscript")
+            r = self.fresh()
+            out.append(f"{ind}let {r} ← loadChar s {p} {i}")
+            return r, "nat"
+        if k == "bin":
+            op = e[1]
+            if op in ("&&", "||"):
+                self.refuse(f"`{op}` used as a value")
+            a, aty = self.ev(e[2], env, out, ind)
+            b, bty = self.ev(e[3], env, out, ind)
+            if op in ("+", "*", "|"):
+                if aty == "nat" and bty == "nat":
+                    lop = {"+": "+", "*": "*", "|": "|||"}[op]
+                    return f"({a} {lop} {b})", "nat"
+                if op == "+" and aty == "cptr" and bty == "nat":
+                    return f"(padd {a} {b})", "cptr"
+                self.refuse(f"`{op}` on {aty} and {bty}")
+            if op in ("==", "!=", "<", "<=", ">", ">="):
+                lop = {"==": "=", "!=": "≠", "<": "<", "<=": "≤", ">": ">", ">=": "≥"}[op]
+                if aty == bty and (aty == "nat" or (aty in ("dptr", "objptr") and op in ("==", "!="))):
+                    return f"({a} {lop} {b})", "bool"
+                self.refuse(f"`{op}` on {aty} and {bty}")
+            self.refuse(f"operator `{op}`")
+        if k == "not":
+            a, aty = self.ev(e[1], env, out, ind)
+            return f"(¬ {self.as_cond(a, aty)})", "bool"
+        if k == "tern":
+            # lazy; the branches must not store
+            c, cty = self.ev(e[1], env, out, ind)
+            res = []
+            for br in (e[2], e[3]):
+                sub = []
+                t, ty = self.ev(br, env, sub, ind + "    ")
+                if any(re.match(r"\s*let s\b", l) for l in sub):
+                    self.refuse("a store inside a branch of `?:`")
+                res.append((sub, t, ty))
+            if res[0][2] != res[1][2]:
+                self.refuse("`?:` with branches of different types")
+            ty = res[0][2]
+            if ty in ("obj", "objptr") and not res[0][0] and not res[1][0]:
+                return f"(if {self.as_cond(c, cty)} then {res[0][1]} else {res[1][1]})", ty
+            if ty != "nat":
+                self.refuse(f"`?:` of type {ty}")
+            r = self.fresh()
+            out.append(f"{ind}let {r} ← (if {self.as_cond(c, cty)} then (do")
+            out.extend(res[0][0])
+            out.append(f"{ind}    pure {res[0][1]}) else (do")
+            out.extend(res[1][0])
+            out.append(f"{ind}    pure {res[1][1]}))")
+            return r, "nat"
+        if k == "assign":
+            return self.assign(e, env, out, ind)
+        if k == "call":
+            return self.call(e[1], e[2], "this", env, out, ind)
+        if k == "mcall":
+            t, ty = self.ev(e[1], env, out, ind)
+            if ty != "objptr" or e[2] != "->" or t != "this":
+                self.refuse(f"member call `{e[3]}` on something that is not `this`")
+            return self.call(e[3], e[4], t, env, out, ind)
+        if k == "delete":
+            t, ty = self.ev(e[1], env, out, ind)
+            if ty != "dptr_as_chars":
+                self.refuse("`delete[]` of something that is not `(char*)<Data*>`")
+            out.append(f"{ind}let s ← deleteData s {t}")
+            return "()", "void"
+        if k == "new":
+            self.refuse("`new` outside `X = (Data*)new char[n]; X->str = (char*)((byte*)X + sizeof(Data));`")
+        self.refuse(f"expression `{k}`")
+
+    def as_cond(self, t, ty):
+        if ty == "bool":
+            return t
+        if ty == "nat":
+            return f"({t} ≠ 0)"
+        self.refuse(f"a {ty} used as a condition")
+
+    def call(self, name, args, obj, env, out, ind):
+        if name in ("Atomic::increment", "Atomic::decrement"):
+            # the update goes through the Data* of the operand `<Data*>->ref`
+            if not (len(args) == 1 and args[0][0] == "arrow" and args[0][2] == "ref"):
+                self.refuse(f"`{name}` on something that is not `<Data*>->ref`")
+            p, pty = self.ev(args[0][1], env, out, ind)
+            if pty != "dptr":
+                self.refuse(f"`{name}` on something that is not `<Data*>->ref`")
+            if name == "Atomic::increment":
+                out.append(f"{ind}let s ← atomicInc s {p}")
+                return "()", "void"
+            out.append(f"{ind}let s ← atomicDec s {p}")
+            r = self.fresh()
+            out.append(f"{ind}let {r} ← dRef s {p}")
+            return r, "nat"
+        vals = [self.ev(a, env, out, ind) for a in args]
+        tys = [ty for _, ty in vals]
+        if name == "detach" and tys == ["nat", "nat"]:
+            if "detach" not in self.known:
+                self.refuse("call of detach before its definition")
+            out.append(f"{ind}let s ← detach s {obj} {vals[0][0]} {vals[1][0]}")
+            return "()", "void"
+        if name == "Memory::copy" and tys == ["cptr", "cptr", "nat"]:
+            out.append(f"{ind}let s ← memCopy s {vals[0][0]} {vals[1][0]} {vals[2][0]}")
+            return "()", "void"
+        self.refuse(f"call of `{name}` with ({', '.join(tys)})")
+
+    def assign(self, e, env, out, ind):
+        lhs, rhs = e[1], e[2]
+        v, vty = self.ev(rhs, env, out, ind)
+        if lhs == ("id", "data"):
+            if vty != "dptr":
+                self.refuse(f"`data = <{vty}>`")
+            out.append(f"{ind}let s := setData s this {v}")
+            return v, vty
+        if lhs[0] == "id" and lhs[1] in env and env[lhs[1]][1] in ("nat", "dptr", "cptr") and lhs[1] not in self.params:
+            self.refuse(f"assignment to the local `{lhs[1]}` (locals are single-assignment in the subset)")
+        if lhs[0] == "arrow":
+            p, pty = self.ev(lhs[1], env, out, ind)
+            st = {"len": "setLen", "capacity": "setCap", "ref": "setRef"}.get(lhs[2])
+            if pty != "dptr" or st is None or vty != "nat":
+                self.refuse(f"store `->{lhs[2]} = <{vty}>`")
+            out.append(f"{ind}let s ← {st} s {p} {v}")
+            return v, vty
+        if lhs[0] == "index":
+            p, pty = self.ev(lhs[1], env, out, ind)
+            i, ity = self.ev(lhs[2], env, out, ind)
+            if pty != "cptr" or ity != "nat" or vty != "nat":
+                self.refuse("this store through a subscript")
+            out.append(f"{ind}let s ← storeChar s {p} {i} {v}")
+            return v, vty
+        self.refuse("this assignment")
+
+    # ---- conditions with short circuit: kthen / kelse : (env, ind) -> lines
+    def cond(self, c, env, ind, kthen, kelse):
+        if c[0] == "not":
+            return self.cond(c[1], env, ind, kelse, kthen)
+        if c[0] == "bin" and c[1] == "&&":
+            return self.cond(c[2], env, ind, lambda env2, ind2: self.cond(c[3], env2, ind2, kthen, kelse), kelse)
+        if c[0] == "bin" and c[1] == "||":
+            return self.cond(c[2], env, ind, kthen, lambda env2, ind2: self.cond(c[3], env2, ind2, kthen, kelse))
+        out = []
+        t, ty = self.ev(c, env, out, ind)
+        return out + [f"{ind}if {self.as_cond(t, ty)} then"] + kthen(env, ind + "  ") + [f"{ind}else"] + kelse(env, ind + "  ")
+
+    # ---- statements; `rest` follows (both branches of an `if` continue with it)
+    def is_alloc(self, s, nxt):
+        """`X = (Data*)new char[n];` / `Data* X = (Data*)new char[n];` followed by `X->str = (char*)((byte*)X + sizeof(Data));`"""
+        if s[0] == "decl" and s[1] == "dptr":
+            target, init = ("id", s[2]), s[3]
+        elif s[0] == "expr" and s[1][0] == "assign" and s[1][1] == ("id", "data"):
+            target, init = ("id", "data"), s[1][2]
+        else:
+            return None
+        if not (init[0] == "cast" and init[1] == "Data*" and init[2][0] == "new"):
+            return None
+        want = ("expr", ("assign", ("arrow", target, "str"),
+                         ("cast", "char*", ("bin", "+", ("cast", "byte*", target), ("sizeof", "Data")))))
+        if nxt != want:
+            self.refuse("`new` that is not followed by `X->str = (char*)((byte*)X + sizeof(Data));`")
+        return target, init[2][1]
+
+    def leave(self, env, ind, objs):
+        out = []
+        for slot in reversed(objs):
+            if "dtor" not in self.known:
+                self.refuse("local String before the destructor is translated")
+            out.append(f"{ind}let s ← dtor s {slot}")
+            out.append(f"{ind}let s := endLife s {slot}")
+        return out + [f"{ind}pure s"]
+
+    def run(self, stmts, env, ind, objs, ret):
+        if not stmts:
+            if ret != "void" and ret != "ctor":
+                self.refuse("control reaches the end of a function that returns a value")
+            return self.leave(env, ind, objs)
+        s, rest = stmts[0], stmts[1:]
+        k = s[0]
+        if k == "block":
+            return self.run(list(s[1]) + rest, env, ind, objs, ret)
+        al = self.is_alloc(s, rest[0] if rest else None)
+        if al is not None:
+            target, size = al
+            out = []
+            n, nty = self.ev(size, env, out, ind)
+            if nty != "nat":
+                self.refuse("size of `new char[…]`")
+            p = self.fresh()
+            out.append(f"{ind}let {p} := Loc.blk s.next")
+            out.append(f"{ind}let s ← newData s {n}")
+            env2 = dict(env)
+            if target == ("id", "data"):
+                out.append(f"{ind}let s := setData s this {p}")
+            else:
+                if target[1] in env:
+                    self.refuse(f"`{target[1]}` declared twice")
+                env2[target[1]] = (p, "dptr")
+            return out + self.run(rest[1:], env2, ind, objs, ret)
+        if k == "decl":
+            cty, name, e = s[1], s[2], s[3]
+            if name in env or name in ("data", "this"):
+                self.refuse(f"`{name}` declared twice / shadows a member")
+            out = []
+            t, ty = self.ev(e, env, out, ind)
+            if ty != cty:
+                self.refuse(f"`{name}` of type {cty} initialised with a {ty}")
+            v = self.fresh()
+            out.append(f"{ind}let {v} := {t}")
+            env2 = dict(env)
+            env2[name] = (v, ty)
+            return out + self.run(rest, env2, ind, objs, ret)
+        if k == "declobj":
+            name, e = s[1], s[2]
+            if name in env:
+                self.refuse(f"`{name}` declared twice")
+            out = []
+            t, ty = self.ev(e, env, out, ind)
+            if ty != "obj":
+                self.refuse("`String x(…)` with something else than a String")
+            if "ctorCopy" not in self.known:
+                self.refuse("local String before the copy constructor is translated")
+            self.tmps = max(self.tmps, len(objs) + 1)
+            slot = f"tmp{len(objs) + 1}"
+            out.append(f"{ind}let s ← ctorCopy s {slot} {t}")
+            env2 = dict(env)
+            env2[name] = (slot, "obj")
+            return out + self.run(rest, env2, ind, objs + [slot], ret)
+        if k == "declref":
+            name, e = s[1], s[2]
+            if name in env:
+                self.refuse(f"`{name}` declared twice")
+            out = []
+            t, ty = self.ev(e, env, out, ind)
+            if ty != "obj":
+                self.refuse("`const String& x = …` bound to something else than a String")
+            v = self.fresh()
+            out.append(f"{ind}let {v} := {t}")
+            env2 = dict(env)
+            env2[name] = (v, "obj")
+            return out + self.run(rest, env2, ind, objs, ret)
+        if k == "if":
+            return self.cond(s[1], env, ind,
+                             lambda env2, ind2: self.run([s[2]] + rest, env2, ind2, objs, ret),
+                             lambda env2, ind2: self.run([s[3]] + rest, env2, ind2, objs, ret))
+        if k == "return":
+            e = s[1]
+            ok = {"void": [None], "ctor": [None], "self": [("deref", ("this",))],
+                  "cstr": [("arrow", ("id", "data"), "str"), ("cast", "char*", ("arrow", ("id", "data"), "str")),
+                           ("cast", "constchar*", ("arrow", ("id", "data"), "str"))]}[ret]
+            if e not in ok:
+                self.refuse("this return value")
+            return self.leave(env, ind, objs)
+        if k == "expr":
+            out = []
+            e = s[1]
+            if e[0] not in ("assign", "call", "mcall", "delete"):
+                self.refuse(f"expression statement `{e[0]}` without effect")
+            self.ev(e, env, out, ind)
+            return out + self.run(rest, env, ind, objs, ret)
+        self.refuse(f"statement `{k}`")
+
+
+P_STR = r"const\s+String\s*&\s*(\w+)"
+BODY_FUNCS = [
+    # lean name, signature regex (groups = parameter names), parameter types, kind of return value, C++ name
+    ("dtor", r"~\s*String\s*\(\s*\)", [], "void", "~String()"),
+    ("detach", r"void\s+detach\s*\(\s*usize\s+(\w+)\s*,\s*usize\s+(\w+)\s*\)", ["nat", "nat"], "void", "detach(usize, usize)"),
+    ("ctorCopy", r"(?<![~\w])String\s*\(\s*" + P_STR + r"\s*\)", ["obj"], "ctor", "String(const String&)"),
+    ("assign", r"String\s*&\s*operator\s*=\s*\(\s*" + P_STR + r"\s*\)", ["obj"], "self", "operator=(const String&)"),
+    ("cviewConst", r"operator\s+const\s+char\s*\*\s*\(\s*\)\s*const", [], "cstr", "operator const char*() const"),
+    ("cview", r"operator\s+const\s+char\s*\*\s*\(\s*\)(?!\s*const)", [], "cstr", "operator const char*()"),
+    ("mview", r"operator\s+char\s*\*\s*\(\s*\)", [], "cstr", "operator char*()"),
+    ("detach0", r"void\s+detach\s*\(\s*\)", [], "void", "detach()"),
+    ("resize", r"void\s+resize\s*\(\s*usize\s+(\w+)\s*\)", ["nat"], "void", "resize(usize)"),
+    ("reserve", r"void\s+reserve\s*\(\s*usize\s+(\w+)\s*\)", ["nat"], "void", "reserve(usize)"),
+    ("appendS", r"String\s*&\s*append\s*\(\s*" + P_STR + r"\s*\)", ["obj"], "self", "append(const String&)"),
+    ("appendP", r"String\s*&\s*append\s*\(\s*const\s+char\s*\*\s*(\w+)\s*,\s*usize\s+(\w+)\s*\)", ["cptr", "nat"], "self", "append(const char*, usize)"),
+    ("appendC", r"String\s*&\s*append\s*\(\s*(?:const\s+)?char\s+(\w+)\s*\)", ["nat"], "self", "append(char)"),
+    ("prependS", r"String\s*&\s*prepend\s*\(\s*" + P_STR + r"\s*\)", ["obj"], "self", "prepend(const String&)"),
+    ("prependP", r"String\s*&\s*prepend\s*\(\s*const\s+char\s*\*\s*(\w+)\s*,\s*usize\s+(\w+)\s*\)", ["cptr", "nat"], "self", "prepend(const char*, usize)"),
+]
+LEAN_TY = {"nat": "Nat", "obj": "Nat", "cptr": "CPtr"}
+
+
+def generate_body(repo):
+    hpp = strip_comments((Path(repo) / "include/nstd/String.hpp").read_text())
+    parts = ["/- generated by tools/gen_str.py from include/nstd/String.hpp — do not edit -/", "import Nstd.Str.Mach", "",
+             "set_option linter.unusedVariables false", "", "namespace Nstd.Str.Generated.Body", "open Nstd.Str Nstd.Str.Mach", ""]
+    known, summary = [], []
+    for lean, rx, ptys, ret, cname in BODY_FUNCS:
+        body, names = extract_body(hpp, cname, rx)
+        p = BP(btokenize(body, cname), cname)
+        stmts = p.stmts()
+        if p.peek() is not None:
+            raise Untranslatable(f"{cname}: trailing tokens")
+        if len(set(names)) != len(names) or any(n in ("data", "this", "s") for n in names):
+            raise Untranslatable(f"{cname}: parameter names {names}")
+        params = {n: (f"p_{n}", ty) for n, ty in zip(names, ptys)}
+        tr = BT(cname, params, known)
+        lines = tr.run(stmts, dict(params), "  ", [], ret)
+        sig = "(s : St) (this : Nat)" + "".join(f" (p_{n} : {LEAN_TY[ty]})" for n, ty in zip(names, ptys))
+        sig += "".join(f" (tmp{i + 1} : Nat)" for i in range(tr.tmps))
+        parts += [f"/-- `{cname}` -/", f"def {lean} {sig} : Option St := do"] + lines + [""]
+        known.append(lean)
+        summary.append(f"{lean}:{len(stmts)}")
+    parts += ["end Nstd.Str.Generated.Body", ""]
+    return "\n".join(parts), " ".join(summary)
+
+
+
 def run(repo=None):
     """returns (ok, message); writes the generated file only when its content changed"""
     if repo is None:
@@ -178,18 +894,21 @@ def run(repo=None):
         repo = common.REPO
     try:
         text = generate(repo)
-    except (Untranslatable, OSError) as ex:
-        return False, f"gen_str: {ex}"
+        body, summary = generate_body(repo)
+    except (Untranslatable, OSError, IndexError, KeyError) as ex:
+        return False, f"gen_str: {ex!r}" if not isinstance(ex, Untranslatable) else f"gen_str: {ex}"
     OUT.parent.mkdir(parents=True, exist_ok=True)
     if not OUT.exists() or OUT.read_text() != text:
         OUT.write_text(text)
-    return True, hashlib.sha1(text.encode()).hexdigest()[:12]
+    if not BODY_OUT.exists() or BODY_OUT.read_text() != body:
+        BODY_OUT.write_text(body)
+    return True, hashlib.sha1((text + body).encode()).hexdigest()[:12] + " bodies " + summary
 
 
 def gen(ctx):
     ok, msg = run()
     if ok:
-        ctx.notes.append(f"translator: Nstd/Generated/StrTables.lean regenerated from the current sources (sha1 {msg})")
+        ctx.notes.append(f"translator: Nstd/Generated/StrTables.lean and StrBody.lean regenerated from the current sources (sha1 {msg})")
     return ok, msg
 
 
